@@ -194,12 +194,13 @@ theorem padEven_length_le (b : Bytes) : b.length ≤ (padEven b).length := by
   unfold padEven; split <;> simp
 
 /-- one function record block: the fields the model uses and the three name tables of the handler's block -/
-theorem readFrb_ok (ctx0 : Lscr.Ctx) (d : Bytes) (frb off : Nat) (h : HCode) (fname : Str) (pnames lnames : List Str)
+theorem readFrb_ok (ctx0 : Lscr.Ctx) (d : Bytes) (frb off : Nat) (h : HCode) (fname : Str) (pnames lnames gnames : List Str)
     (hrec : CodeAt d frb (encFs (recFields h off))) (hblk : CodeAt d off (blockBytes h))
     (hsz : off + (blockBytes h).length < 32768) (hni : h.nameIdx < 32768) (hname : ctx0.names[h.nameIdx]? = some fname)
-    (hargs : NamesAt ctx0.names h.args pnames) (hlocs : NamesAt ctx0.names h.locals lnames) (hglob : h.globals = []) :
-    ∃ locals params, readFrb ctx0 d (frb : Int) = .ok { fname := fname, bcLen := (h.code.length : Int), bcOff := (off : Int), locals := locals, params := params, isMethod := false, globals := [] } ∧
-      Leaves .localVar lnames locals ∧ Leaves .paramName pnames params := by
+    (hargs : NamesAt ctx0.names h.args pnames) (hlocs : NamesAt ctx0.names h.locals lnames)
+    (hglob : NamesAt ctx0.names h.globals gnames) (hgnd : gnames.Nodup) :
+    ∃ locals params globals, readFrb ctx0 d (frb : Int) = .ok { fname := fname, bcLen := (h.code.length : Int), bcOff := (off : Int), locals := locals, params := params, isMethod := false, globals := globals } ∧
+      Leaves .localVar lnames locals ∧ Leaves .paramName pnames params ∧ Leaves .globalVar gnames globals := by
   have hlen : (blockBytes h).length = (padEven h.code).length + 2 * h.args.length + 2 * h.locals.length + 2 * h.globals.length := by
     simp only [blockBytes, List.length_append, flatMap_be16_length]
   have hpad := padEven_length_le h.code
@@ -236,94 +237,155 @@ theorem readFrb_ok (ctx0 : Lscr.Ctx) (d : Bytes) (frb off : Nat) (h : HCode) (fn
     exact this
   obtain ⟨locals, hl, hleavesL⟩ := localNames_ok ctx0 d (off + (padEven h.code).length + 2 * h.args.length) h.locals lnames 0 hlocs (by simpa using hb2)
   obtain ⟨params, hp, hleavesP⟩ := paramNames_ok ctx0 d (off + (padEven h.code).length) h.args pnames 0 hargs (by simpa using hb1)
-  refine ⟨locals, params, ?_, hleavesL, hleavesP⟩
+  have hb3 : CodeAt d (off + (padEven h.code).length + 2 * h.args.length + 2 * h.locals.length) (h.globals.flatMap be16) := by
+    have hb : CodeAt d off ((padEven h.code ++ h.args.flatMap be16 ++ h.locals.flatMap be16) ++ h.globals.flatMap be16) := hblk
+    have := hb.right
+    rw [List.length_append, List.length_append, flatMap_be16_length, flatMap_be16_length] at this
+    simpa [Nat.add_assoc] using this
+  obtain ⟨globals, hg, hleavesG⟩ := handlerGlobals_ok ctx0 d (off + (padEven h.code).length + 2 * h.args.length + 2 * h.locals.length)
+    h.globals gnames 0 [] [] hglob (by simpa using hgnd) All2.nil (by simpa using hb3)
+  refine ⟨locals, params, globals, ?_, hleavesL, hleavesP, hleavesG⟩
   unfold readFrb
   simp only [r0, r1, r2, r3, r4, r5, r6, r7, r8, r9, r10, r11, r12, r13, bind, Except.bind, pure, Except.pure]
   have t1 : toSigned (8 * 2) h.locals.length = (h.locals.length : Int) := toSigned16_small _ (by omega)
   have t2 : toSigned (8 * 2) h.args.length = (h.args.length : Int) := toSigned16_small _ (by omega)
-  have t3 : toSigned (8 * 2) h.globals.length = 0 := by rw [hglob]; rfl
+  have t3 : toSigned (8 * 2) h.globals.length = (h.globals.length : Int) := toSigned16_small _ (by omega)
+  have t9 : toSigned (8 * 4) (off + (padEven h.code).length + 2 * h.args.length + 2 * h.locals.length) = ((off + (padEven h.code).length + 2 * h.args.length + 2 * h.locals.length : Nat) : Int) :=
+    toSigned32_small _ (by omega)
   have t4 : toSigned (8 * 4) (off + (padEven h.code).length + 2 * h.args.length) = ((off + (padEven h.code).length + 2 * h.args.length : Nat) : Int) :=
     toSigned32_small _ (by omega)
   have t5 : toSigned (8 * 4) (off + (padEven h.code).length) = ((off + (padEven h.code).length : Nat) : Int) := toSigned32_small _ (by omega)
   have t6 : toSigned (8 * 2) h.nameIdx = (h.nameIdx : Int) := toSigned16_small _ hni
   have t7 : toSigned (8 * 4) h.code.length = (h.code.length : Int) := toSigned32_small _ (by omega)
   have t8 : toSigned (8 * 4) off = (off : Int) := toSigned32_small _ (by omega)
-  simp only [t1, t2, t3, t4, t5, t6, t7, t8, Int.toNat_natCast, hl, hp, nameOr_some _ _ _ hname]
-  rfl
+  simp only [t1, t2, t3, t4, t5, t6, t7, t8, t9, Int.toNat_natCast, hl, hp, hg, List.nil_append, nameOr_some _ _ _ hname]
 
 /-! ### constant records -/
 
-/-- the model's constant for a pool entry -/
-def constName : Spec.Const → Lscr.Name
-  | .int n => .s (natStr n)
-  | .str s => .s (escapeString s)
-  | .float _ _ => .s []
+theorem Lay.at_cdata (L : Lay) : CodeAt L.bytes L.conOff L.cdata :=
+  ⟨encFs L.fields ++ L.blocks ++ L.props.flatMap be16 ++ L.globs.flatMap be16 ++ L.records ++ L.crecs, [], by simp [Lay.bytes],
+    by simp only [List.length_append, hdr_length, flatMap_be16_length, Lay.prbOff, Lay.grbOff, Lay.frbOff, Lay.crbOff, Lay.conOff,
+      Lay.crecs, constRecords_fst_length]⟩
 
-/-- the 6-byte record of a constant without out-of-line data -/
-def crec (c : Spec.Const) : Bytes := c.record 0
+theorem plainStr_spec (s : Spec.Name) (h : plainStrB s = true) : s ≠ [] ∧ ∀ c ∈ s, plainCharB c = true := by
+  simp only [plainStrB, Bool.and_eq_true, Bool.not_eq_true', List.all_eq_true] at h
+  refine ⟨?_, h.2⟩
+  intro e; subst e; simp at h
 
-theorem crec_int (n : Nat) : crec (.int n) = be16 4 ++ be32 n := rfl
+theorem plain_ascii (s : Spec.Name) (h : ∀ c ∈ s, plainCharB c = true) : asciiName s = true := by
+  simp only [asciiName, List.all_eq_true, decide_eq_true_eq]
+  intro c hc
+  have := h c hc
+  simp only [plainCharB, Bool.and_eq_true, decide_eq_true_eq] at this
+  omega
 
-theorem constRecords_good : ∀ (cs : List Spec.Const) (off : Nat), (∀ c ∈ cs, GoodConst c) →
-    constRecords cs off = (cs.flatMap crec, [])
-  | [], _, _ => rfl
-  | c :: cs, off, h => by
-    have hc := h c (by simp)
-    have ih := constRecords_good cs (off + c.data.length) (fun x hx => h x (by simp [hx]))
-    cases c with
-    | int n =>
-      have e1 : (Spec.Const.int n).data = [] := rfl
-      have e2 : (Spec.Const.int n).record off = crec (.int n) := rfl
-      rw [e1] at ih
-      simp only [constRecords, e1, e2, List.flatMap_cons, List.nil_append, ih]
-    | str s => exact absurd hc (by simp [GoodConst])
-    | float a b => exact absurd hc (by simp [GoodConst])
+theorem padEven_length (b : Bytes) : (padEven b).length = b.length + b.length % 2 := by
+  unfold padEven; split <;> simp <;> omega
 
-theorem crbLoop_good (d : Bytes) (conOff : Int) : ∀ (cs : List Spec.Const) (a : Nat) (acc : List Lscr.Name), (∀ c ∈ cs, GoodConst c) →
-    CodeAt d a (cs.flatMap crec) →
-    crbLoop .macRoman d conOff cs.length { idx := (a : Int), bpc := 6, acc := acc }
+/-- `parse_lrcr_crb` over the records of covered constants: record table at `a`, out-of-line data (strings) at `conOff + off` -/
+theorem crbLoop_good (d : Bytes) (conOff : Nat) : ∀ (cs : List Spec.Const) (a off : Nat) (acc : List Lscr.Name), (∀ c ∈ cs, GoodConst c) →
+    CodeAt d a (constRecords cs off).1 → CodeAt d (conOff + off) (constRecords cs off).2 → d.length < 32768 →
+    crbLoop .macRoman d (conOff : Int) cs.length { idx := (a : Int), bpc := 6, acc := acc }
       = .ok { idx := ((a + 6 * cs.length : Nat) : Int), bpc := 6, acc := acc ++ cs.map constName }
-  | [], a, acc, _, _ => by simp [crbLoop]
-  | c :: cs, a, acc, h, hc => by
+  | [], a, off, acc, _, _, _, _ => by simp [crbLoop]
+  | c :: cs, a, off, acc, h, hc, hdat, hsz => by
     have hg := h c (by simp)
+    have n8 : ¬ (6 = 8) := by omega
+    have e6 : (a : Int) + 2 + 4 = ((a + 6 : Nat) : Int) := by omega
+    have e7 : a + 6 + 6 * cs.length = a + 6 * (cs.length + 1) := by omega
     cases c with
-    | str s => exact absurd hg (by simp [GoodConst])
     | float x y => exact absurd hg (by simp [GoodConst])
     | int n =>
       have hn : n < 2147483648 := hg
-      simp only [List.flatMap_cons, crec_int] at hc
+      have e1 : (Spec.Const.int n).data = [] := rfl
+      simp only [constRecords, e1, List.nil_append, List.length_nil, Nat.add_zero, Const.record] at hc hdat
       have h1 : CodeAt d a (be16 4) := by
-        have : CodeAt d a (be16 4 ++ (be32 n ++ cs.flatMap crec)) := by rw [← List.append_assoc]; exact hc
+        have : CodeAt d a (be16 4 ++ (be32 n ++ (constRecords cs off).1)) := by rw [← List.append_assoc]; exact hc
         exact this.left
       have h2 : CodeAt d (a + 2) (be32 n) := by
         have := hc.sub
         rwa [be16_length] at this
-      have h3 : CodeAt d (a + 6) (cs.flatMap crec) := by
+      have h3 : CodeAt d (a + 6) (constRecords cs off).1 := by
         have := hc.right
         rwa [List.length_append, be16_length, be32_length] at this
       have r1 : Lscr.getSI 2 d (a : Int) = .ok 4 := by rw [getSI_be16 d a 4 h1 (by omega)]; rfl
       have r2 : Lscr.getSI 4 d ((a : Int) + 2) = .ok (n : Int) := by
         have e : (a : Int) + 2 = ((a + 2 : Nat) : Int) := by omega
         rw [e, getSI_be32 d (a + 2) n h2 (by omega), toSigned32_small n hn]
-      have ih := crbLoop_good d conOff cs (a + 6) (acc ++ [constName (.int n)]) (fun x hx => h x (by simp [hx])) h3
+      have ih := crbLoop_good d conOff cs (a + 6) off (acc ++ [constName (.int n)]) (fun x hx => h x (by simp [hx])) h3 hdat hsz
       simp only [List.length_cons, crbLoop, crbStep]
-      have n8 : ¬ (6 = 8) := by omega
       have n0 : ¬ ((4 : Int) = 0) := by omega
       have n1 : ¬ ((4 : Int) = 1) := by omega
       simp only [n8, if_false, r1, bind, Except.bind, n0, pure, Except.pure, r2, n1, if_true]
-      have e6 : (a : Int) + 2 + 4 = ((a + 6 : Nat) : Int) := by omega
       rw [e6]
       have : intStr ((n : Nat) : Int) = natStr n := rfl
       simp only [this]
       rw [show (Lscr.Name.s (natStr n)) = constName (.int n) from rfl, ih]
-      have e7 : a + 6 + 6 * cs.length = a + 6 * (cs.length + 1) := by omega
+      simp only [e7, List.map_cons, List.append_assoc, List.singleton_append]
+    | str v =>
+      obtain ⟨hne, hpl⟩ := plainStr_spec v hg
+      obtain ⟨D, hD⟩ : ∃ D, D = (Spec.Const.str v).data := ⟨_, rfl⟩
+      have hDl : D = be32 (v.length + 1) ++ padEven (nameBytes v ++ [0]) := hD
+      simp only [constRecords, Const.record, ← hD] at hc hdat
+      have hle := hdat.left.le
+      have hnb : (nameBytes v).length = v.length := by simp [nameBytes]
+      have hoff : off < 32768 := by omega
+      have h1 : CodeAt d a (be16 1) := by
+        have : CodeAt d a (be16 1 ++ (be32 off ++ (constRecords cs (off + D.length)).1)) := by
+          rw [← List.append_assoc]; exact hc
+        exact this.left
+      have h2 : CodeAt d (a + 2) (be32 off) := by
+        have := hc.sub
+        rwa [be16_length] at this
+      have h3 : CodeAt d (a + 6) (constRecords cs (off + D.length)).1 := by
+        have := hc.right
+        rwa [List.length_append, be16_length, be32_length] at this
+      have hdD : CodeAt d (conOff + off) (be32 (v.length + 1) ++ padEven (nameBytes v ++ [0])) := by
+        have := hdat.left
+        rwa [hDl] at this
+      have hd1 : CodeAt d (conOff + off) (be32 (v.length + 1)) := hdD.left
+      obtain ⟨t, ht⟩ : ∃ t, padEven (nameBytes v ++ [0]) = nameBytes v ++ t := by
+        unfold padEven; split
+        · exact ⟨[0, 0], by simp⟩
+        · exact ⟨[0], rfl⟩
+      have hd2 : CodeAt d (conOff + off + 4) (nameBytes v) := by
+        have : CodeAt d (conOff + off) (be32 (v.length + 1) ++ nameBytes v ++ t) := by
+          rw [ht, ← List.append_assoc] at hdD; exact hdD
+        have := this.sub
+        rwa [be32_length] at this
+      have hd3 : CodeAt d (conOff + (off + D.length)) (constRecords cs (off + D.length)).2 := by
+        have := hdat.right
+        rwa [Nat.add_assoc] at this
+      have r1 : Lscr.getSI 2 d (a : Int) = .ok 1 := by rw [getSI_be16 d a 1 h1 (by omega)]; rfl
+      have r2 : Lscr.getSI 4 d ((a : Int) + 2) = .ok (off : Int) := by
+        have e : (a : Int) + 2 = ((a + 2 : Nat) : Int) := by omega
+        rw [e, getSI_be32 d (a + 2) off h2 (by omega), toSigned32_small off (by omega)]
+      have hvl : v.length + 1 < 32768 := by
+        rw [hDl] at hle
+        simp only [List.length_append, be32_length, padEven_length, List.length_cons, List.length_nil, hnb] at hle
+        omega
+      have r3 : Lscr.getSI 4 d ((conOff : Int) + (off : Int)) = .ok ((v.length + 1 : Nat) : Int) := by
+        have e : (conOff : Int) + (off : Int) = ((conOff + off : Nat) : Int) := by omega
+        rw [e, getSI_be32 d _ _ hd1 (by omega), toSigned32_small _ (by omega)]
+      have r4 : pySlice d ((conOff : Int) + (off : Int) + 4) ((conOff : Int) + (off : Int) + 4 + (((v.length + 1 : Nat) : Int) - 1)) = nameBytes v := by
+        have eb : (conOff : Int) + (off : Int) + 4 + (((v.length + 1 : Nat) : Int) - 1) = ((conOff + off + 4 + v.length : Nat) : Int) := by omega
+        have ea : (conOff : Int) + (off : Int) + 4 = ((conOff + off + 4 : Nat) : Int) := by omega
+        rw [eb, ea, pySlice_nat, ← hnb]
+        exact hd2.slice
+      have ih := crbLoop_good d conOff cs (a + 6) (off + D.length) (acc ++ [constName (.str v)])
+        (fun x hx => h x (by simp [hx])) h3 hd3 hsz
+      simp only [List.length_cons, crbLoop, crbStep]
+      have n0 : ¬ ((1 : Int) = 0) := by omega
+      simp only [n8, if_false, r1, bind, Except.bind, n0, pure, Except.pure, r2, if_true, r3, r4, decodeText_ascii v (plain_ascii v hpl)]
+      rw [e6, show (Lscr.Name.s (escapeString v)) = constName (.str v) from rfl, ih]
       simp only [e7, List.map_cons, List.append_assoc, List.singleton_append]
 
-theorem parseCrb_good (d : Bytes) (cs : List Spec.Const) (a : Nat) (conOff : Int) (h : ∀ c ∈ cs, GoodConst c)
-    (hc : CodeAt d a (cs.flatMap crec)) :
-    parseCrb .macRoman d (a : Int) conOff (cs.length : Int) = .ok (cs.map constName, 6) := by
+theorem parseCrb_good (d : Bytes) (cs : List Spec.Const) (a conOff : Nat) (h : ∀ c ∈ cs, GoodConst c)
+    (hc : CodeAt d a (constRecords cs 0).1) (hdat : CodeAt d conOff (constRecords cs 0).2) (hsz : d.length < 32768) :
+    parseCrb .macRoman d (a : Int) (conOff : Int) (cs.length : Int) = .ok (cs.map constName, 6) := by
   unfold parseCrb
-  simp only [Int.toNat_natCast, crbLoop_good d conOff cs a [] h hc, bind, Except.bind, pure, Except.pure, List.nil_append]
+  simp only [Int.toNat_natCast, crbLoop_good d conOff cs a 0 [] h hc (by simpa using hdat) hsz, bind, Except.bind, pure, Except.pure,
+    List.nil_append]
 
 /-! ### the name table chunk -/
 
